@@ -23,7 +23,8 @@ reg("C02",
          "compared with the reference table; a class = request kind x type width x position of start/end (on attribute / in gap / beyond last / 0xFFFF / "
          "invalid) x first response (error code, one entry, several entries)",
     bound="quick: %d server declarations; thorough: %d; each with all (start,end) in {0..last+2, 0xFFFF}^2, all attribute types of the database + "
-          "0x2800-0x2803, 0x2901, 0x2902, unknown 16/128 bit (16 bit types also in 128 bit form), MTU in {23,24,48,65,247}; the max_mtu_size<512> server with 250..300 octet values "
+          "0x2800-0x2803, 0x2901, 0x2902, unknown 16/128 bit (16 bit types also in 128 bit form), MTU in {23,24,48,65,247}; Read By Type at MTU 23 also with every 16 bit type of the "
+          "database in its Bluetooth base UUID form with exactly one of the 16 octets changed; the max_mtu_size<512> server with 250..300 octet values "
           "also with MTU in {255,256,257,258,259,260,512}" % (
               len(_servers.family("C02", "quick")), len(_servers.family("C02", "thorough"))),
     units=[dict(src="harness/C02_discovery.cpp", pre=["python3", "gen/servers.py", "emit"], variants=_variants("C02"))],
